@@ -35,6 +35,7 @@ def err_blocks(body):
 
 
 def run(ctx):
+    n_keys(ctx)
     prog = ctx.prog()
 
     # ---------------------------------------------------------------- N-DUP
@@ -278,3 +279,123 @@ def _same_key(b, op1, bb1, op2, bb2):
 def _keydesc(o):
     calls = sorted({a[1].rsplit("::", 1)[-1] for a in o if a[0] == "call" and a[1]})
     return "+".join(calls[:3]) or "key"
+
+
+
+def n_keys(ctx):
+    """The grammar of argument keys must accept every key the generator looks up: the key parser of `arguments`
+    (a nom combinator expression, read off the MIR as a term) is matched against each option name that
+    ndl::generating reads (HashMap::get / contains_key arguments and the strings option names are compared with)."""
+    from .. import symx as S
+    prog = ctx.prog()
+    ab = prog.one("ndl::parsing::parser_util::arguments")
+    try:
+        t, _ = S.extract(prog, ab)
+    except S.Unsupported as e:
+        ctx.require(False, "N-KEYS: cannot read the combinator expression of `arguments` (%s)" % e)
+    pairs = S.atoms(t, lambda x: x[0] == "call" and x[1].rsplit("::", 1)[-1] == "separated_pair" and len(x[2]) == 3)
+    ctx.require(len(pairs) == 1, "N-KEYS: key=value combinator (separated_pair) not found in `arguments`")
+    keyp = pairs[0][2][0]
+    # preceded(skip, key) / terminated(key, skip) wrappers around the key parser proper
+    while keyp[0] == "call" and keyp[1].rsplit("::", 1)[-1] in ("preceded", "terminated", "context") and len(keyp[2]) == 2:
+        nm = keyp[1].rsplit("::", 1)[-1]
+        keyp = keyp[2][1] if nm in ("preceded", "context") else keyp[2][0]
+    keys = set()
+    for b in prog.bodies.values():
+        if not b.key.startswith("elvis::ndl::generating"):
+            continue
+        for bb, tm in K.calls(b):
+            ck = F.callee_key(tm) or ""
+            nm = ck.rsplit("::", 1)[-1]
+            args = F.call_args(tm)
+            if ck.startswith("std::collections::hash::map::") and nm in ("get", "contains_key", "remove") and len(args) == 2:
+                for a in dep.arg_origins(b, bb, 1, through_calls=False):
+                    if a[0] == "const" and isinstance(a[1], str):
+                        keys.add(a[1])
+                c = F.op_const(args[1])
+                if isinstance(c, dict) and "str" in c:
+                    keys.add(c["str"])
+                else:
+                    r = dep.single_def_rvalue(b, F.op_place(args[1])[0]) if F.op_place(args[1]) is not None else None
+                    if r is not None and r[1][0] == "use":
+                        c2 = F.op_const(r[1][1])
+                        if isinstance(c2, dict) and "str" in c2:
+                            keys.add(c2["str"])
+            if ck.endswith("str::traits::{impl#1}::eq") and b.key.endswith("machine_generator::machine_generator"):
+                for a in args:
+                    c = F.op_const(a)
+                    if isinstance(c, dict) and "str" in c:
+                        keys.add(c["str"])
+    keys = {k for k in keys if k and " " not in k and len(k) < 40}
+    ctx.require(len(keys) >= 10 and "auto-protocol" in keys and "name" in keys, "N-KEYS: option names read by the generator not found (%s)" % sorted(keys)[:8])
+
+    def char_ok(fn_key, ch):
+        fb = prog.bodies.get(fn_key)
+        if fb is None:
+            return None
+        try:
+            ft, _ = S.extract(prog, fb)
+        except S.Unsupported:
+            return None
+        prm = S.params_of(fb)[0]
+
+        def ev(x):
+            if x == prm:
+                return ch
+            k = x[0]
+            if k == "bool":
+                return x[1]
+            if k == "const":
+                return x[1]
+            if k == "cast":
+                v = ev(x[1])
+                return ord(v) if isinstance(v, str) else v
+            if k == "ite":
+                return ev(x[2]) if ev(x[1]) else ev(x[3])
+            if k == "not":
+                return not ev(x[1])
+            if k == "bin" and x[1] in ("Eq", "Ne", "Lt", "Le", "Gt", "Ge", "BitOr", "BitAnd"):
+                a, b_ = ev(x[2]), ev(x[3])
+                a = ord(a) if isinstance(a, str) else a
+                b_ = ord(b_) if isinstance(b_, str) else b_
+                return {"Eq": a == b_, "Ne": a != b_, "Lt": a < b_, "Le": a <= b_, "Gt": a > b_, "Ge": a >= b_, "BitOr": a | b_, "BitAnd": a & b_}[x[1]]
+            if k == "call":
+                nm = x[1].rsplit("::", 1)[-1]
+                a = [ev(y) for y in x[2]]
+                c0 = a[0] if a else None
+                c0 = chr(c0) if isinstance(c0, int) and nm.startswith("is_") and 0 <= c0 < 0x110000 else c0
+                table = {"is_alphanumeric": lambda c: c.isalnum(), "is_alphabetic": lambda c: c.isalpha(), "is_ascii_alphanumeric": lambda c: c.isascii() and c.isalnum(),
+                         "is_ascii_alphabetic": lambda c: c.isascii() and c.isalpha(), "is_numeric": lambda c: c.isnumeric(), "is_ascii_digit": lambda c: c in "0123456789",
+                         "is_whitespace": lambda c: c.isspace(), "is_ascii_punctuation": lambda c: c.isascii() and not c.isalnum() and not c.isspace() and c.isprintable(),
+                         "is_space": lambda c: c in " \t", "is_newline": lambda c: c == "\n", "is_ascii": lambda c: c.isascii(),
+                         "is_alphanumeric_u8": lambda c: c.isalnum()}
+                if nm in table and isinstance(c0, str):
+                    return table[nm](c0)
+            raise KeyError(x)
+        try:
+            return bool(ev(ft))
+        except (KeyError, TypeError):
+            return None
+    probs = []
+    nm = keyp[1].rsplit("::", 1)[-1] if keyp[0] == "call" else "?"
+    verdict = "accepts"
+    for kx in sorted(keys):
+        if nm in ("take_until", "take_until1") and keyp[2] and keyp[2][0][0] == "str":
+            if keyp[2][0][1] in kx:
+                probs.append("option name %r contains the terminator %r" % (kx, keyp[2][0][1]))
+        elif nm in ("take_while1", "take_while", "take_till", "take_till1") and keyp[2] and keyp[2][0][0] == "fn":
+            for ch in kx:
+                r = char_ok(keyp[2][0][1], ch)
+                if r is None:
+                    ctx.require(False, "N-KEYS: the key character class %s cannot be evaluated: no verdict" % keyp[2][0][1])
+                acc = r if nm.startswith("take_while") else not r
+                if not acc:
+                    probs.append("the key grammar stops at %r, so the option %r that the generator reads (e.g. on [Machine]) can no longer be written: every description using it is rejected" % (ch, kx))
+                    break
+        elif nm in ("alphanumeric1", "alpha1"):
+            if not (kx.isalnum() if nm == "alphanumeric1" else kx.isalpha()):
+                probs.append("the key grammar (%s) cannot express the option %r that the generator reads" % (nm, kx))
+        else:
+            ctx.require(False, "N-KEYS: unrecognised key parser %s: no verdict" % S.term_str(keyp)[:80])
+    (ctx.bad if probs else ctx.ok)("N-KEYS", "N-KEYS:arguments", ab.span, "; ".join(probs[:2]) if probs else
+        "the key parser %s accepts all %d option names the generator reads (%s, ...)" % (S.term_str(keyp)[:50], len(keys), ", ".join(sorted(keys)[:5])))
